@@ -68,7 +68,18 @@ def color_spec(rng):
     return (('c', 232 + v), "g%d" % v)
 
 
+def pad(rng, token):
+    """blanks around a colour token are not significant"""
+    return rng.choice(["", " "]) + token + rng.choice(["", " ", "  "])
+
+
 def render_descr(rng, parent, fgs, bgs, mods):
+    if rng.random() < 0.15:
+        fgs, bgs = pad(rng, fgs), pad(rng, bgs)
+        if not fgs.strip():
+            fgs = fgs.strip()
+        if not bgs.strip():
+            bgs = bgs.strip()
     modstr = ",".join((e if v else "no_" + e) for e, v in mods.items())
     if rng.random() < 0.2 and modstr:
         modstr = modstr.replace(",", ", ")
@@ -132,6 +143,14 @@ def gen_set(rng, prefix, dangling=False):
         parent = rng.choice(free) if (b != "TEXT" and free and rng.random() < 0.4) else None
         items[b] = dict(parent=parent, fg=fg, bg=bg, mods={}, descr=render_descr(rng, parent, fgs, bgs, {}),
                         initial_only=True)
+    if rng.random() < 0.25:
+        # an id of the explicit configuration spelled like one of the accessor names of the standard palette
+        low = rng.choice(["ok", "warn", "text", "name", "keyword", "error", "number"])
+        fg, fgs = color_spec(rng)
+        bg, bgs = color_spec(rng)
+        mods = {'underline': True} if rng.random() < 0.5 else {}
+        items[low] = dict(parent=None, fg=fg, bg=bg, mods=mods, descr=render_descr(rng, None, fgs, bgs, mods),
+                          initial_only=True)
     if rng.random() < 0.5 and any(it['parent'] == late_missing for it in items.values()):
         # the missing id gets registered in some later batch
         fg, fgs = color_spec(rng)
@@ -227,7 +246,8 @@ def run_history(ctx, items, plan, mode, case):
             if sid not in registered:
                 continue
             want, unres = want_of(sid)
-            for how, getter in (("get_color", lambda: conf.get_color(sid)), ("get_palette", lambda: pal[sid])):
+            for how, getter in (("get_color", lambda: conf.get_color(sid)), ("get_palette", lambda: pal[sid]),
+                                ("palette.get_color", lambda: pal.get_color(sid))):
                 try:
                     got = shown_state(getter())
                 except sgr.SgrError as err:
